@@ -359,7 +359,115 @@ def classify_tails(a, o):
     return f"{min(len(a['chunks']), 4)} chunks:{'ok' if 'ok' in o else o.get('err')}"
 
 
+# ------------------------------------------------------------------ the tokeniser contract: events of the infoset
+def gen_contract(rng, tier):
+    """respelled documents with the tree of their declarations, read in random pieces"""
+    for u, ctx, desc, tree, kind in documents(rng, tier, n_cases(tier, 60, 900), 3, mutate=False):
+        try:
+            orig = G.tree_xml(tree)
+            tree = R.infoset(orig)
+        except Exception:  # noqa: BLE001
+            continue
+        ann = R.annotate(u, tree)
+        for _ in range(3):
+            kinds = [k for k in R.ALL_KINDS if k != "xinclude" and rng.random() < 0.3]
+            try:
+                data, files, _new_tree, info = R.respell(tree, ann, rng, kinds)
+            except R.Skip:
+                continue
+            if info["xtree"] is None:
+                continue
+            cuts = pick_cuts(rng, data)
+            yield {"doc": info["xtree"], "_doc": b64(data), "_cuts": cuts, "_kinds": info["kinds"] + (["chunks"] if cuts else [])}
+
+
+class _StubNode:
+    def __init__(self, ns_map):
+        self.ns_map = ns_map
+
+
+class _StubParser:
+    """what a handler needs from a parser; records the calls"""
+
+    def __init__(self):
+        self.calls = []
+        self.config = type("C", (), {"process_xinclude": False, "base_url": None, "load_dtd": False})()
+
+    def start(self, clazz, queue, objects, qname, attrs, ns_map):
+        self.calls.append(["start", qname, [[k, v] for k, v in attrs.items()], [[p, u] for p, u in ns_map.items()]])
+        queue.append(_StubNode(ns_map))
+
+    def end(self, queue, objects, qname, text, tail):
+        queue.pop()
+        self.calls.append(["end", qname, text, tail])
+        return False
+
+    def register_namespace(self, ns_map, prefix, uri):
+        self.calls.append(["start-ns", prefix, uri])
+        if prefix not in ns_map:
+            ns_map[prefix] = uri
+
+
+def impl_contract_native(a):
+    """XmlEventHandler on a recording parser: expat + TreeBuilder + process_context vs the model's
+    `pump (toks infoset)`"""
+    from xsdata.formats.dataclass.parsers.handlers import XmlEventHandler
+
+    stub = _StubParser()
+    ns_map: dict = {}
+    try:
+        XmlEventHandler(parser=stub, clazz=None).parse(ChunkedSource(unb64(a["_doc"]), a["_cuts"]), ns_map)
+    except Exception as e:  # noqa: BLE001
+        return {"err": "LEAK:" + type(e).__name__}
+    return {"ok": {"events": stub.calls, "ns_map": [[p, u] for p, u in ns_map.items()]}}
+
+
+def impl_contract_lxml(a):
+    """LxmlEventHandler on a recording parser: libxml2 + element.nsmap + get_text/get_tail vs the model's
+    `spec` (in-scope namespaces as lookups over the prefixes of the document)"""
+    from xsdata.formats.dataclass.parsers.handlers import LxmlEventHandler
+
+    cands = [None]
+
+    def coll(n):
+        for p, _ in n["d"]:
+            p = p or None
+            if p not in cands:
+                cands.append(p)
+        for c in n["c"]:
+            coll(c)
+
+    coll(a["doc"])
+    stub = _StubParser()
+    try:
+        LxmlEventHandler(parser=stub, clazz=None).parse(ChunkedSource(unb64(a["_doc"]), a["_cuts"]), {})
+    except Exception as e:  # noqa: BLE001
+        return {"err": "LEAK:" + type(e).__name__}
+    out = []
+    for c in stub.calls:
+        if c[0] == "start":
+            m = {p: u for p, u in c[3]}
+            extra = [p for p in m if p not in cands and p != "xml"]
+            if extra:
+                return {"err": f"unexpected prefixes {extra}"}
+            out.append(["start", c[1], c[2], [[p, m.get(p)] for p in cands]])
+        else:
+            out.append(c)
+    return {"ok": out}
+
+
+def classify_contract(a, o):
+    ks = a.get("_kinds", [])
+    tag = "+".join(k for k in ("encoding", "cdata", "charref", "comment_text", "pi_text", "default", "prefix", "chunks") if k in ks) or "plain"
+    return f"{tag}:{'ok' if 'ok' in o else o.get('err')}"
+
+
 CORRS = [
+    Corr("c08.pump", gen_contract, impl_contract_native, classify=classify_contract,
+         describe="TokeniserContract (native): XmlEventHandler's calls on a recording parser for respelled documents (all rewrite "
+                  "kinds but XInclude, read in pieces) vs pump (toks infoset)"),
+    Corr("c08.inscope", gen_contract, impl_contract_lxml, classify=classify_contract,
+         describe="the same for LxmlEventHandler vs the in-scope specification (element.nsmap, get_text / get_tail)"),
     Corr("c09.tails", gen_tails, impl_tails, classify=classify_tails,
          describe="the tail passed to parser.end for every element by XmlEventHandler and LxmlEventHandler reading a source in given pieces "
                   "vs the model's deferredReads"),
